@@ -21,7 +21,10 @@ if os.path.exists(p):
     out.append("| reverted commit | check | caught | first witness line |\n|---|---|---|---|")
     for r in json.load(open(p)):
         w = (r["first"][0] if r["first"] else "").split("#", 1)[-1].strip()[:140]
-        out.append(f"| `{r['commit']}` | {r['check']} | {'yes' if r['caught'] else '**no**'} | {w} |")
+        yes = 'yes' if r['caught'] else '**no**'
+        if r.get("seeds"):
+            yes += f" ({len(r.get('caught_on_seeds', []))}/{len(r['seeds'])} seeds)"
+        out.append(f"| `{r['commit']}` | {r['check']} | {yes} | {w} |")
 p = os.path.join(V, "selftest", "last_seeded.json")
 if os.path.exists(p):
     res = {r["seeded"]: r for r in json.load(open(p))}
